@@ -56,4 +56,33 @@ def replay(w):
 
 
 def validate(witnesses):
-    return {'checked': 0, 'agree': 0, 'skipped': len(witnesses), 'disagree': []}
+    from fast_ticc.admm import solver
+    from fast_ticc.containers import arguments
+    checked = agree = skipped = 0
+    disagree = []
+    for w in witnesses:
+        nt, inp, out = w.get('notes') or {}, w.get('inputs') or {}, w.get('outputs') or {}
+        if nt.get('kind') != 'type' or 'z' not in out:
+            skipped += 1
+            continue
+        N, W = int(nt['N']), int(nt['W'])
+        n = N * W
+        L = n * (n + 1) // 2
+        x = np.array([flt(inp.get('x_%d' % k, 0)) for k in range(L)])
+        u = np.array([flt(inp.get('u_%d' % k, 0)) for k in range(L)])
+        lam = FORMS[nt['tag']](int(inp.get('lam', 0)))
+        args = arguments.ADMMArguments(window_size=W, num_data_series=N, rho=flt(inp.get('rho', 1)), rho_update=None,
+                                       sparsity_weight=lam, absolute_tolerance=1e-6, relative_tolerance=1e-6,
+                                       max_iterations=1, verbose=False)
+        try:
+            z = np.asarray(solver.admm_update_z(args, u, x), float)
+        except Exception as exc:
+            disagree.append({'raised': repr(exc), 'tag': nt['tag']})
+            checked += 1
+            continue
+        checked += 1
+        if np.allclose(z, [flt(v) for v in out['z']], rtol=1e-9, atol=1e-12):
+            agree += 1
+        else:
+            disagree.append({'inputs': inp, 'real': z.tolist(), 'engine': out['z'], 'tag': nt['tag']})
+    return {'checked': checked, 'agree': agree, 'skipped': skipped, 'disagree': disagree[:5]}
